@@ -212,8 +212,14 @@ impl Scope {
                             //         read_number_of_ext_fields
                             //     )));
                         }
-                        let range = bits.pos()..bits.pos() + *number_of_ext_fields;
-                        bits.set_pos(range.start + read_number_of_ext_fields); // skip bit-field
+                        if bits.remaining() < read_number_of_ext_fields {
+                            return Err(ErrorKind::EndOfStream.into());
+                        }
+                        // The bit-field has as many entries as the sender knows about. Fewer than
+                        // known locally: the missing ones are not present. More than known
+                        // locally: the remaining entries are skipped at the end of the sequence.
+                        let range = bits.pos()..bits.pos() + read_number_of_ext_fields;
+                        bits.set_pos(range.end); // skip bit-field
                         *self = Scope::AllBitField(range);
                     } else {
                         *self = Scope::ExtensibleSequenceEmpty(name);
@@ -888,6 +894,40 @@ impl<B: ScopedBitRead> UperReader<B> {
         result
     }
 
+    /// Skips the extension fields of an extensible sequence that are flagged as present but
+    /// are unknown to - and thus have not been read by - the local definition of the sequence.
+    /// Must be called after all known fields have been read and before the scope of the
+    /// sequence is left.
+    #[inline]
+    fn skip_unknown_extension_fields(&mut self) -> Result<(), Error> {
+        if let Some(Scope::ExtensibleSequence { .. }) = &self.scope {
+            // The extension flag is set, but not a single extension field is known locally,
+            // so the header of the extension body has not been read yet
+            let number_of_ext_fields = self.bits.read_normally_small_length()? as usize + 1;
+            if self.bits.remaining() < number_of_ext_fields {
+                return Err(ErrorKind::EndOfStream.into());
+            }
+            let range = self.bits.pos()..self.bits.pos() + number_of_ext_fields;
+            self.bits.set_pos(range.end); // skip bit-field
+            self.scope = Some(Scope::AllBitField(range));
+        }
+        if let Some(Scope::AllBitField(range)) = &self.scope {
+            let unknown = range.clone();
+            for position in unknown.clone() {
+                if self.bits.with_read_position_at(position, |b| b.read_bit())? {
+                    // present but unknown: skip the open type
+                    let len = self.bits.read_length_determinant(None, None)? as usize;
+                    if self.bits.remaining() / BYTE_LEN < len {
+                        return Err(ErrorKind::EndOfStream.into());
+                    }
+                    self.bits.set_pos(self.bits.pos() + len * BYTE_LEN);
+                }
+            }
+            self.scope = Some(Scope::AllBitField(unknown.end..unknown.end));
+        }
+        Ok(())
+    }
+
     #[inline]
     pub fn read_bit_field_entry(&mut self, is_opt: bool) -> Result<Option<bool>, Error> {
         #[allow(clippy::let_and_return)]
@@ -994,7 +1034,11 @@ impl<B: ScopedBitRead> Reader for UperReader<B> {
                         calls_until_ext_bitfield: (extension_after + 1) as usize,
                         number_of_ext_fields: (C::FIELD_COUNT - (extension_after + 1)) as usize,
                     },
-                    f,
+                    |r| {
+                        let value = f(r)?;
+                        r.skip_unknown_extension_fields()?;
+                        Ok(value)
+                    },
                 )
             } else {
                 r.scope_pushed(Scope::OptBitField(range), f)
